@@ -189,13 +189,13 @@ well-formed sequence (the replacement rune of width 1, one byte consumed), or a 
 the bytes that encode it -/
 def DecValid (s : GoStr) (r : Rune) (t : GoStr) : Prop :=
   s = r.enc ++ t ∧ encodeRune r.cp = r.enc ∧ validRune r.cp = true ∧ r.enc ≠ [] ∧
-  ¬ (r.width = 1 ∧ r.cp = 0xFFFD) ∧ (128 ≤ r.cp → ∀ b ∈ r.enc, 128 ≤ b.toNat)
+  ¬ (r.width = 1 ∧ r.cp = 0xFFFD) ∧ (128 ≤ r.cp → ∀ b ∈ r.enc, 128 ≤ b.toNat) ∧ r.width = r.enc.length
 
 def DecInvalid (s : GoStr) (r : Rune) (t : GoStr) : Prop :=
-  ∃ b0, s = b0 :: t ∧ r.width = 1 ∧ r.cp = 0xFFFD
+  ∃ b0, s = b0 :: t ∧ r = runeError
 
 theorem runeError_invalid (b0 : UInt8) (rest : GoStr) : DecInvalid (b0 :: rest) runeError rest :=
-  ⟨b0, rfl, rfl, rfl⟩
+  ⟨b0, rfl, rfl⟩
 
 theorem cont_iff (b : UInt8) : isCont b = true ↔ 0x80 ≤ b.toNat ∧ b.toNat ≤ 0xBF := by
   simp only [isCont, Bool.and_eq_true, decide_eq_true_eq, UInt8.le_iff_toNat_le]
@@ -249,7 +249,7 @@ theorem dec3 (b0 b1 b2 lo hi : UInt8) (r2 : GoStr) (r : Rune) (t : GoStr)
       intro c; rw [hhi', if_pos c] at h2; exact h2
     obtain ⟨he, hv, hge, _⟩ := enc3 b0 b1 b2 hr hb1 hA hD ((cont_iff b2).1 hc2)
     right
-    refine ⟨rfl, he, hv, by simp, ?_, ?_⟩
+    refine ⟨rfl, he, hv, by simp, ?_, ?_, rfl⟩
     · intro ⟨hw, _⟩; simp only at hw; omega
     · intro _ b hb
       simp only [List.mem_cons, List.not_mem_nil, or_false] at hb
@@ -298,7 +298,7 @@ theorem dec4 (b0 b1 b2 b3 lo hi : UInt8) (r3 : GoStr) (r : Rune) (t : GoStr)
       intro c; rw [hhi', if_pos c] at h2; exact h2
     obtain ⟨he, hv, hge, _⟩ := enc4 b0 b1 b2 b3 hr hb1 hA hD ((cont_iff b2).1 hc2) ((cont_iff b3).1 hc3)
     right
-    refine ⟨rfl, he, hv, by simp, ?_, ?_⟩
+    refine ⟨rfl, he, hv, by simp, ?_, ?_, rfl⟩
     · intro ⟨hw, _⟩; simp only at hw; omega
     · intro _ b hb
       simp only [List.mem_cons, List.not_mem_nil, or_false] at hb
@@ -327,7 +327,7 @@ theorem decode1_spec (s : GoStr) (r : Rune) (t : GoStr) (h : decode1 s = some (r
         have := UInt8.lt_iff_toNat_lt.1 hlt
         simpa using this
       right
-      refine ⟨rfl, ?_, ?_, by simp, ?_, ?_⟩
+      refine ⟨rfl, ?_, ?_, by simp, ?_, ?_, rfl⟩
       · simp [encodeRune, hn]
       · simp only [validRune, Bool.and_eq_true, decide_eq_true_eq, Bool.not_eq_true', Bool.and_eq_false_iff, decide_eq_false_iff_not]
         omega
@@ -346,7 +346,7 @@ theorem decode1_spec (s : GoStr) (r : Rune) (t : GoStr) (h : decode1 s = some (r
             obtain ⟨rfl, rfl⟩ := h
             obtain ⟨he, hv, hge⟩ := enc2 b0 b1 hr' ((cont_iff b1).1 hc)
             right
-            refine ⟨rfl, he, hv, by simp, ?_, ?_⟩
+            refine ⟨rfl, he, hv, by simp, ?_, ?_, rfl⟩
             · intro ⟨hw, _⟩; simp only at hw; omega
             · intro _ b hb
               simp only [List.mem_cons, List.not_mem_nil, or_false] at hb
@@ -422,7 +422,7 @@ theorem encodeRune_ascii (cp : Nat) (h : cp < 128) : encodeRune cp = [UInt8.ofNa
 /-- the escape written for a rune decodes to the bytes the rune was read from -/
 theorem dec_escRune (isPrint : Nat → Bool) (s : GoStr) (r : Rune) (t : GoStr) (hv : DecValid s r t) (rest : GoStr) :
     litDecode (escRune isPrint r ++ rest) = (litDecode rest).map (r.enc ++ ·) := by
-  obtain ⟨_, he, hval, _, _, hhi⟩ := hv
+  obtain ⟨_, he, hval, _, _, hhi, _⟩ := hv
   have hlt : r.cp < 1114112 := by
     simp only [validRune, Bool.and_eq_true, decide_eq_true_eq] at hval
     exact hval.1
@@ -521,13 +521,15 @@ theorem quoteFuel_roundtrip (isPrint : Nat → Bool) :
     | cons b0 rest =>
       obtain ⟨r, t, hd⟩ := decode1_cons b0 rest
       simp only [quoteFuel, hd]
-      rcases decode1_spec _ r t hd with ⟨b0', hs', hw, hc⟩ | hv
+      rcases decode1_spec _ r t hd with ⟨b0', hs', hre⟩ | hv
       · -- a byte that is not UTF-8
         have hb : b0' = b0 ∧ t = rest := by
           have := hs'
           simp only [List.cons.injEq] at this
           exact ⟨this.1.symm, this.2.symm⟩
         obtain ⟨rfl, rfl⟩ := hb
+        have hw : r.width = 1 := by rw [hre]; rfl
+        have hc : r.cp = 0xFFFD := by rw [hre]; rfl
         simp only [hw, hc, beq_self_eq_true, Bool.and_self, if_true]
         rw [dec_x b0'.toNat b0'.toNat_lt, ih t (by simp only [List.length_cons] at hs; omega)]
         simp
